@@ -1196,3 +1196,53 @@ func checkUnwindCompleteness(c *core.Ctx) {
 		c.Undecided("R20.15", "completeness test after the bounded unwinder", 0, "not found")
 	}
 }
+
+// checkVectorShiftImmediateMasked (R05.8): in the amd64 vector-shift lowerings a shift count that goes into the immediate
+// of a packed shift is a literal or is reduced modulo the lane width first: packed shifts do not mask their count.
+func checkVectorShiftImmediateMasked(c *core.Ctx) {
+	p := c.Pkg("internal/engine/wazevo/backend/isa/amd64")
+	if p == nil {
+		return
+	}
+	info := p.TypesInfo
+	n := 0
+	core.AllFuncDecls(p, func(fd *ast.FuncDecl) {
+		if !strings.HasPrefix(fd.Name.Name, "lowerVIshl") && !strings.HasPrefix(fd.Name.Name, "lowerVUshr") && !strings.HasPrefix(fd.Name.Name, "lowerVSshr") {
+			return
+		}
+		ast.Inspect(fd.Body, func(x ast.Node) bool {
+			call, ok := x.(*ast.CallExpr)
+			if !ok {
+				return true
+			}
+			f := core.Callee(info, call)
+			if f == nil || f.Name() != "asXmmRmiReg" || len(call.Args) < 2 {
+				return true
+			}
+			op, ok := ast.Unparen(call.Args[1]).(*ast.CallExpr)
+			if !ok {
+				return true
+			}
+			if g := core.Callee(info, op); g == nil || g.Name() != "newOperandImm32" || len(op.Args) != 1 {
+				return true
+			}
+			n++
+			arg := op.Args[0]
+			_, isK := core.ConstVal(info, arg)
+			masked := false
+			ast.Inspect(arg, func(y ast.Node) bool {
+				if be, ok := y.(*ast.BinaryExpr); ok && (be.Op == token.AND || be.Op == token.REM) {
+					masked = true
+				}
+				return true
+			})
+			c.Check(isK || masked, "R05.8", fmt.Sprintf("amd64 %s: immediate count #%d of a packed shift is a literal or masked", fd.Name.Name, n), call.Pos(),
+				"the immediate is a compile-time literal or reduced modulo the lane width",
+				"`"+core.ExprStr(arg)+"` goes into the imm8 of a packed shift as it is: the instruction does not reduce its count modulo the lane width (a count ≥ the lane width gives 0), while WebAssembly specifies the count modulo the lane width")
+			return true
+		})
+	})
+	if n == 0 {
+		c.Discharge("R05.8", "amd64 vector shifts take no run-time-derived immediate count", 0, "no packed shift with an immediate operand in the vector-shift lowerings")
+	}
+}
